@@ -81,7 +81,11 @@ func runH3E2E(w *bufio.Writer, seed uint64, n int, args []string) {
 var h3ePanicSite = regexp.MustCompile(`uquic/http3\.([A-Za-z0-9_().*]+)\(`)
 
 func h3eRunChild(w *bufio.Writer, seed uint64, n int, mode string) {
-	cmd := exec.Command(os.Args[0], "h3e2e", strconv.FormatUint(seed, 10), strconv.Itoa(n), mode)
+	h3eRunChildOf(w, "h3e2e", seed, n, mode)
+}
+
+func h3eRunChildOf(w *bufio.Writer, unit string, seed uint64, n int, mode string) {
+	cmd := exec.Command(os.Args[0], unit, strconv.FormatUint(seed, 10), strconv.Itoa(n), mode)
 	cmd.Env = os.Environ()
 	var stderr bytes.Buffer
 	cmd.Stderr = &stderr
@@ -469,6 +473,7 @@ type h3eWorld struct {
 	seen  map[int]*h3eSeen
 	w     *bufio.Writer
 	wmu   sync.Mutex
+	nDone int // exchanges whose response was read and checked
 }
 
 func (wd *h3eWorld) fail(key, desc, detail string) {
@@ -582,7 +587,11 @@ func h3eSum(b []byte) string { h := sha256.Sum256(b); return fmt.Sprintf("%d:%x"
 
 // one exchange through the real client; the reference check of both directions.
 func (wd *h3eWorld) exchange(tr *http3.Transport, base string, s *h3eSpec, lossy bool) {
-	tag := fmt.Sprintf("lossy=%v %s", lossy, s)
+	wd.exchangeTagged(tr, base, s, fmt.Sprintf("lossy=%v", lossy))
+}
+
+func (wd *h3eWorld) exchangeTagged(tr *http3.Transport, base string, s *h3eSpec, env string) {
+	tag := fmt.Sprintf("%s %s", env, s)
 	url := fmt.Sprintf("%s/e/%d", base, s.id)
 	if s.query != "" {
 		url += "?" + s.query
@@ -598,7 +607,7 @@ func (wd *h3eWorld) exchange(tr *http3.Transport, base string, s *h3eSpec, lossy
 		}
 		body = cr
 	}
-	ctx, cancel := context.WithTimeout(context.Background(), 60*time.Second)
+	ctx, cancel := context.WithTimeout(context.Background(), 120*time.Second)
 	defer cancel()
 	var got1xx []int
 	var got1xxLink string
@@ -631,6 +640,9 @@ func (wd *h3eWorld) exchange(tr *http3.Transport, base string, s *h3eSpec, lossy
 	}
 	rb, rerr := io.ReadAll(res.Body)
 	res.Body.Close()
+	wd.mu.Lock()
+	wd.nDone++
+	wd.mu.Unlock()
 	// ---- what the handler saw ----
 	wd.mu.Lock()
 	seen := wd.seen[s.id]
@@ -943,6 +955,12 @@ func (wd *h3eWorld) rawClientScenarios(addr string, ctls *tls.Config, r *u.Rng, 
 		// malformed / truncated requests
 		_, p = newID()
 		full := append(h3eReqHeaders(p), h3eFrame(0, body)...)
+		idt, pt := newID()
+		out = append(out, scen{name: "truncated-data-frame", id: idt, uni: [][]byte{ctrl(okSettings)},
+			req: append(append(h3eReqHeaders(pt), quicvarint.Append([]byte{0x0}, 100)...), body[:min(40, len(body))]...), fin: true, wantApp: 0x106})
+		idt2, pt2 := newID()
+		out = append(out, scen{name: "truncated-unknown-frame", id: idt2, uni: [][]byte{ctrl(okSettings)},
+			req: append(append(append(h3eReqHeaders(pt2), h3eFrame(0, body)...), quicvarint.Append(quicvarint.Append(nil, grease()), 50)...), 1, 2, 3), fin: true, wantApp: 0x106})
 		out = append(out, scen{name: "truncated-request", req: full[:r.Range(1, len(full)-1)], fin: true, wantApp: -2})
 		out = append(out, scen{name: "garbage-qpack", req: h3eFrame(0x1, r.Bytes(r.Range(1, 40))), fin: true, wantApp: -2})
 		out = append(out, scen{name: "random-bytes", req: r.Bytes(r.Range(1, 200)), fin: true, wantApp: -2})
@@ -983,7 +1001,19 @@ func (wd *h3eWorld) rawClientScenarios(addr string, ctls *tls.Config, r *u.Rng, 
 				if s.name == "reserved-frame-on-control-stream" {
 					key = "h3/server-control-stream-unread-after-settings"
 				}
+				if strings.HasPrefix(s.name, "truncated-") {
+					key = "h3/truncated-frame-clean-eof"
+				}
 				wd.fail(key, fmt.Sprintf("the server did not close the connection with %#x (got application error %#x)", s.wantApp, res.appCode), detail)
+			}
+			if strings.HasPrefix(s.name, "truncated-data-frame") || strings.HasPrefix(s.name, "truncated-unknown-frame") {
+				time.Sleep(20 * time.Millisecond)
+				wd.mu.Lock()
+				seen := wd.seen[s.id]
+				wd.mu.Unlock()
+				if seen != nil && seen.bodyErr == nil {
+					wd.fail("h3/truncated-frame-clean-eof", fmt.Sprintf("request with a frame cut short by FIN (no Content-Length): the server's handler reads the body to a clean EOF (%d bytes, silently truncated)", len(seen.body)), detail)
+				}
 			}
 			if s.wantApp == -1 && res.connErr != nil {
 				wd.fail("h3e2e/unknown-not-ignored", "the connection died although only ignorable frames / stream types were sent: "+res.connErr.Error(), detail)
@@ -1071,6 +1101,12 @@ type h3eRawServer struct {
 	mu   sync.Mutex
 	resp func(reqNo int) (resp []byte, fin bool, uni [][]byte) // what to send on the n-th request stream
 	n    int
+	ends chan h3eReqEnd // how each request stream ended (bytes read, error)
+}
+
+type h3eReqEnd struct {
+	n   int64
+	err error
 }
 
 func h3eNewRawServer(stls *tls.Config) *h3eRawServer {
@@ -1078,7 +1114,7 @@ func h3eNewRawServer(stls *tls.Config) *h3eRawServer {
 	if err != nil {
 		panic(err)
 	}
-	s := &h3eRawServer{ln: ln, addr: ln.Addr().String()}
+	s := &h3eRawServer{ln: ln, addr: ln.Addr().String(), ends: make(chan h3eReqEnd, 256)}
 	go func() {
 		for {
 			conn, err := ln.Accept(context.Background())
@@ -1107,7 +1143,14 @@ func h3eNewRawServer(stls *tls.Config) *h3eRawServer {
 						}
 					}
 					go func() {
-						go io.Copy(io.Discard, str)
+						go func() {
+							// io.Copy hides io.EOF: a nil error means the stream ended with a clean FIN
+							n, err := io.Copy(io.Discard, str)
+							select {
+							case s.ends <- h3eReqEnd{n, err}:
+							default:
+							}
+						}()
 						str.Write(resp)
 						if fin {
 							str.Close()
@@ -1126,14 +1169,15 @@ func (wd *h3eWorld) rawServerScenarios(stls, ctls *tls.Config, r *u.Rng, n int) 
 	ctrlOK := append([]byte{0x00}, h3eFrame(0x4, nil)...)
 	grease := func() uint64 { return 0x1f*uint64(r.Intn(1<<16)) + 0x21 }
 	type scen struct {
-		name     string
-		resp     []byte
-		fin      bool
-		uni      [][]byte
-		wantBody []byte // non-nil: RoundTrip must succeed with wantCode (default 200) and exactly this body
-		wantCode int
-		wantErr  bool // RoundTrip or body read must fail
-		clUnder  bool
+		name      string
+		resp      []byte
+		fin       bool
+		uni       [][]byte
+		wantBody  []byte // non-nil: RoundTrip must succeed with wantCode (default 200) and exactly this body
+		wantCode  int
+		wantErr   bool // RoundTrip or body read must fail
+		clUnder   bool
+		truncated bool
 	}
 	body := r.Bytes(r.Range(1, 5000))
 	half := len(body) / 2
@@ -1180,6 +1224,8 @@ func (wd *h3eWorld) rawServerScenarios(stls, ctls *tls.Config, r *u.Rng, n int) 
 		out = append(out, scen{name: "content-length-exact", resp: append(h3eHeaders(":status", "200", "content-length", strconv.Itoa(len(body))), h3eFrame(0, body)...), fin: true, uni: [][]byte{ctrlOK}, wantBody: body})
 		out = append(out, scen{name: "304-with-content-length-no-content", resp: h3eHeaders(":status", "304", "content-length", "12345", "etag", "x"), fin: true, uni: [][]byte{ctrlOK}, wantBody: []byte{}, wantCode: 304})
 		out = append(out, scen{name: "content-length-over", resp: append(h3eHeaders(":status", "200", "content-length", strconv.Itoa(half)), h3eFrame(0, body)...), fin: true, uni: [][]byte{ctrlOK}, wantErr: true})
+		out = append(out, scen{name: "truncated-data-frame", resp: append(append(append([]byte{}, ok...), quicvarint.Append([]byte{0x0}, uint64(len(body)+60))...), body...), fin: true, uni: [][]byte{ctrlOK}, truncated: true})
+		out = append(out, scen{name: "truncated-unknown-frame", resp: append(append(append(append([]byte{}, ok...), h3eFrame(0, body)...), quicvarint.Append(quicvarint.Append(nil, grease()), 9)...), 1, 2), fin: true, uni: [][]byte{ctrlOK}, truncated: true})
 		out = append(out, scen{name: "content-length-under", resp: append(h3eHeaders(":status", "200", "content-length", strconv.Itoa(len(body)+7)), h3eFrame(0, body)...), fin: true, uni: [][]byte{ctrlOK}, clUnder: true})
 		return out
 	}
@@ -1212,6 +1258,10 @@ func (wd *h3eWorld) rawServerScenarios(stls, ctls *tls.Config, r *u.Rng, n int) 
 			tr.Close()
 			detail := fmt.Sprintf("raw server -> real client: scenario=%s response stream=%s => RoundTrip err=%v status=%d ReadAll(body)=(%s, %v)", s.name, h3trunc(s.resp, 300), err, status, h3eSum(rb), rerr)
 			switch {
+			case s.truncated:
+				if err == nil && rerr == nil {
+					wd.fail("h3/truncated-frame-clean-eof", fmt.Sprintf("response with a frame cut short by FIN (no Content-Length): the client reads the body to a clean EOF (%d bytes, silently truncated)", len(rb)), detail)
+				}
 			case s.clUnder:
 				if err == nil && rerr == nil {
 					wd.fail("h3/content-length-under", "response body shorter than its declared Content-Length: the client reads it to a clean EOF (no error)", detail+fmt.Sprintf(" declared=%d delivered=%d", len(body)+7, len(rb)))
@@ -1243,6 +1293,64 @@ func (wd *h3eWorld) rawServerScenarios(stls, ctls *tls.Config, r *u.Rng, n int) 
 					wd.fail("h3e2e/content-length-over", "the client delivered more body bytes than the declared Content-Length", detail)
 				}
 			}
+		}
+	}
+}
+
+// the sender-side half of the Content-Length clause: a client whose request body turns out shorter
+// than the declared ContentLength must not end the request cleanly.
+func (wd *h3eWorld) requestBodyShort(stls, ctls *tls.Config, r *u.Rng) {
+	rs := h3eNewRawServer(stls)
+	defer rs.ln.Close()
+	rs.resp = func(int) ([]byte, bool, [][]byte) {
+		return append(h3eHeaders(":status", "200"), h3eFrame(0, []byte("ok"))...), true, [][]byte{append([]byte{0x00}, h3eFrame(0x4, nil)...)}
+	}
+	for _, c := range []struct{ declared, actual int }{{1000, 400}, {5, 3}, {70000, 69999}, {10, 10}} {
+		wd.line("SCENARIO\trequest-body-short declared=%d actual=%d", c.declared, c.actual)
+		wd.line("DIST\trequest-body-short\t1")
+		for len(rs.ends) > 0 {
+			<-rs.ends
+		}
+		tr := &http3.Transport{TLSClientConfig: ctls.Clone()}
+		var wroteErr error
+		wrote := make(chan struct{}, 1)
+		ctx, cancel := context.WithTimeout(context.Background(), 5*time.Second)
+		ctx = httptrace.WithClientTrace(ctx, &httptrace.ClientTrace{WroteRequest: func(i httptrace.WroteRequestInfo) {
+			wroteErr = i.Err
+			select {
+			case wrote <- struct{}{}:
+			default:
+			}
+		}})
+		req, _ := http.NewRequestWithContext(ctx, "POST", "https://"+strings.Replace(rs.addr, "127.0.0.1", "localhost", 1)+"/short", &h3eChunkReader{data: r.Bytes(c.actual), chunks: h3eChunks(r, c.actual)})
+		req.ContentLength = int64(c.declared)
+		res, err := tr.RoundTrip(req)
+		if err == nil {
+			io.ReadAll(res.Body)
+			res.Body.Close()
+		}
+		select {
+		case <-wrote:
+		case <-time.After(2 * time.Second):
+		}
+		var end h3eReqEnd
+		gotEnd := false
+		select {
+		case end = <-rs.ends:
+			gotEnd = true
+		case <-time.After(2 * time.Second):
+		}
+		cancel()
+		tr.Close()
+		detail := fmt.Sprintf("real client -> raw server: POST ContentLength=%d, body reader delivers %d bytes => RoundTrip err=%v, WroteRequest err=%v, request stream at the server: %d bytes, end=%v (nil = clean FIN)", c.declared, c.actual, err, wroteErr, end.n, end.err)
+		if c.actual < c.declared {
+			if gotEnd && end.err == nil {
+				wd.fail("h3/request-body-short-clean-fin", "the client ends a request cleanly (FIN) although its body was shorter than the declared Content-Length, and reports no error", detail)
+			} else if wroteErr == nil {
+				wd.fail("h3e2e/request-body-short", "request body shorter than ContentLength: WroteRequest reports no error", detail)
+			}
+		} else if !gotEnd || end.err != nil || wroteErr != nil {
+			wd.fail("h3e2e/request-body-short", "a request whose body matches its ContentLength did not end cleanly", detail)
 		}
 	}
 }
@@ -1332,9 +1440,9 @@ func h3eChild(w *bufio.Writer, seed uint64, n int) {
 		wd.line("SAMPLE\texchange %s: handler and client observations equal the generated message", wd.specs[1])
 	}
 	// B. raw peers
-	nRaw := 28
+	nRaw := 30
 	if thorough {
-		nRaw = 28 * 6
+		nRaw = 30 * 6
 	}
 	wd.rawClientScenarios(addr, ctls, r.Fork(), nRaw)
 	wd.contentLengthServerSide(addr, ctls)
@@ -1346,11 +1454,12 @@ func h3eChild(w *bufio.Writer, seed uint64, n int) {
 	tr := &http3.Transport{TLSClientConfig: ctls.Clone()}
 	wd.exchange(tr, "https://"+addr, s, false)
 	tr.Close()
-	nRS := 21
+	nRS := 23
 	if thorough {
-		nRS = 21 * 5
+		nRS = 23 * 5
 	}
 	wd.rawServerScenarios(stls, ctls, r.Fork(), nRS)
+	wd.requestBodyShort(stls, ctls, r.Fork())
 	wd.line("SCENARIO\tshutdown")
 	srv.Close()
 	udp.Close()
